@@ -54,8 +54,9 @@ pub fn op_parse(args: &[&str], payload: &[u8]) -> String {
     let mode = mode_of(args.first().copied().unwrap_or("exec"));
     let off: u32 = args.get(1).and_then(|s| s.parse().ok()).unwrap_or(0);
     let before = rustpython_parser::verif::steps();
+    let nodump = args.iter().any(|a| *a == "nodump");
     let r = guard(|| {
-        if off == 0 && args.get(2).copied() != Some("starts_at") {
+        if off == 0 && !args.iter().any(|a| *a == "starts_at") {
             parse(src, mode, "<vh>")
         } else {
             parse_starts_at(src, mode, "<vh>", TextSize::from(off))
@@ -64,7 +65,7 @@ pub fn op_parse(args: &[&str], payload: &[u8]) -> String {
     let steps = steps_json(before);
     match r {
         Ok(r) => {
-            let mut s = res_json(&r);
+            let mut s = if nodump && r.is_ok() { drop(r); "{\"ok\":null}".to_string() } else { res_json(&r) };
             s.pop();
             format!("{},\"steps\":{}}}", s, steps)
         }
